@@ -34,7 +34,7 @@ class TickRounding(Harness):
                        "1e-05, 2.5, 0.375 taken at their exact binary value}; price any real in (0, 1e9]; buy and sell (the side as "
                        "a bool, and for two ticks as an int or a numpy.bool_)",
               "thorough": "adds the ticks 1/3, 2/7, 5, 10, 1/3000, 250 and the doubles 0.05, 0.2, 0.001, 0.125, 12.5, 1e-07"}
-    reach = ("nontrivial", "on-grid")
+    reach = ("nontrivial", "on-grid", "marketable-on-arrival")
     stubs = ("pams.market.math -> the same functions with their exact-real definitions when applied to proxies "
              "(floor, ceil, trunc, fabs, isclose); plain numbers go to the real module",)
     assumptions = ("exact real arithmetic: the statement's exact clause ('exactly so whenever tick and price are "
@@ -106,6 +106,26 @@ class TickRounding(Harness):
             g.require(sand(q2 >= p, q2 - p < t), "C19.more-aggressive", "second order (sell at the same price) rounded the wrong way")
         else:
             g.require(sand(q2 <= p, p - q2 < t), "C19.more-aggressive", "second order (buy at the same price) rounded the wrong way")
+        # a running market in which the order is marketable on arrival (it crosses a resting order of another agent):
+        # its own limit is put on the grid all the same (a remainder would rest at it)
+        m3 = mk_market(tick=t, price=300, logger=RecLogger(), running=True)
+        rest_price = t if case["is_buy"] else t * 10 ** 15
+        m3._add_order(Order(agent_id=5, market_id=0, is_buy=not case["is_buy"], kind=LIMIT_ORDER, volume=10, price=rest_price))
+        if case["is_buy"]:
+            g.assume(p >= t)
+        o3 = Order(agent_id=6, market_id=0, is_buy=side, kind=LIMIT_ORDER, volume=3, price=p)
+        PM.math = ProxyMath() if g.symbolic else old_math
+        try:
+            q3 = m3._add_order(o3).price
+        finally:
+            PM.math = old_math
+        g.note("marketable-on-arrival")
+        g.require(_is_multiple(g, q3, t), "C19.accepted-price-off-grid", "marketable order accepted at a price off the grid")
+        g.require(sor(snot(on_grid), q3 == p), "C19.on-grid-price-changed")
+        if case["is_buy"]:
+            g.require(sand(q3 <= p, p - q3 < t), "C19.more-aggressive")
+        else:
+            g.require(sand(q3 >= p, q3 - p < t), "C19.more-aggressive")
 
 
 # =================================================================================================
